@@ -74,9 +74,76 @@ type Engine struct {
 	concretizations          int
 	poolModel                int
 	panicking                *panicState
+	initRan                  map[*ssa.Package]bool
+	initStoreCache           map[*ssa.Package]map[*ssa.Global]bool
+	lazyInit                 int
+	copyCells                map[*Value]bool
 }
 
-var initAllow = map[string]bool{"html": true}
+// Packages whose initialiser is executed from source (lazily, on the first access to one of their
+// package-level variables). Initialisers of all other packages are skipped; reading a variable that
+// such a skipped initialiser would have set ends the path as unsupported instead of silently
+// reading a zero value.
+var initAllow = map[string]bool{"html": true, "unicode/utf8": true, "unicode": true, "strconv": true, "strings": true,
+	"bytes": true, "io": true, "errors": true, "sort": true, "slices": true, "math": true, "math/bits": true,
+	"path": true, "path/filepath": true, "unicode/utf16": true, "encoding/binary": true, "io/fs": true, "net/url": true,
+	"math/rand": false}
+
+// package-level variables of skipped initialisers that may be read as their zero value (the engine
+// models or never dereferences them)
+var zeroGlobals = map[string]bool{"os.Stderr": true, "os.Stdout": true, "os.Stdin": true}
+
+// initStores: the package-level variables a package's initialiser assigns.
+func (e *Engine) initStores(p *ssa.Package) map[*ssa.Global]bool {
+	if m, ok := e.initStoreCache[p]; ok {
+		return m
+	}
+	m := map[*ssa.Global]bool{}
+	seen := map[*ssa.Function]bool{}
+	var scan func(f *ssa.Function)
+	var root func(v ssa.Value) *ssa.Global
+	root = func(v ssa.Value) *ssa.Global {
+		switch v := v.(type) {
+		case *ssa.Global:
+			return v
+		case *ssa.FieldAddr:
+			return root(v.X)
+		case *ssa.IndexAddr:
+			return root(v.X)
+		}
+		return nil
+	}
+	scan = func(f *ssa.Function) {
+		if f == nil || seen[f] || f.Pkg != p {
+			return
+		}
+		seen[f] = true
+		for _, b := range f.Blocks {
+			for _, ins := range b.Instrs {
+				switch ins := ins.(type) {
+				case *ssa.Store:
+					if g := root(ins.Addr); g != nil {
+						m[g] = true
+					}
+				case *ssa.MapUpdate:
+					if u, ok := ins.Map.(*ssa.UnOp); ok {
+						if g := root(u.X); g != nil {
+							m[g] = true
+						}
+					}
+				case *ssa.Call:
+					if callee := ins.Call.StaticCallee(); callee != nil && strings.HasPrefix(callee.Name(), "init#") {
+						scan(callee)
+					}
+				}
+			}
+		}
+	}
+	scan(p.Func("init"))
+	e.initStoreCache[p] = m
+	return m
+}
+
 
 type parentInfo struct {
 	cell *Value
@@ -228,6 +295,44 @@ func (e *Engine) Concretize(i Int) uint64 {
 	return v
 }
 
+// allocLen: length operand of make. A symbolic length is enumerated up to allocSymMax; paths that ask
+// for more are cut (the allocation itself succeeds natively up to the address space, so nothing is
+// asserted about them — they are outside the bound and counted).
+const allocSymMax = 48
+
+func (e *Engine) allocLen(v Value, t types.Type) int {
+	i := v.(Int)
+	_, signed, _ := intWidth(t)
+	if i.T == nil {
+		if signed {
+			return int(signExt(i.V, i.W))
+		}
+		if i.V > 1<<40 {
+			return 1 << 40
+		}
+		return int(i.V)
+	}
+	var x *Term
+	if signed {
+		x = mkSext(64, i.T)
+		if i.W == 64 {
+			x = i.T
+		}
+		if e.Branch(mk("bvslt", 0, x, bvConst(64, 0))) {
+			return -1
+		}
+	} else {
+		x = mkZext(64, i.T)
+		if i.W == 64 {
+			x = i.T
+		}
+	}
+	if !e.Branch(mk("bvule", 0, x, bvConst(64, allocSymMax))) {
+		panic(unsupported("symbolic allocation length above " + strconv.Itoa(allocSymMax)))
+	}
+	return int(e.Concretize(i))
+}
+
 func (e *Engine) concInt(v Value) int {
 	i := v.(Int)
 	u := e.Concretize(i)
@@ -245,10 +350,36 @@ func (e *Engine) global(g *ssa.Global) *Value {
 	if p, ok := e.globals[g]; ok {
 		return p
 	}
+	if gp := g.Pkg; gp != nil && gp != e.pkg && !e.initRan[gp] && g.Name() != "init$guard" {
+		if e.initStores(gp)[g] && !zeroGlobals[g.String()] {
+			if !initAllow[gp.Pkg.Path()] {
+				panic(unsupported("read of " + g.String() + ": the initialiser of package " + gp.Pkg.Path() + " is not executed by the engine"))
+			}
+			e.initRan[gp] = true
+			saveCur := e.cur
+			e.runInit(gp)
+			e.cur = saveCur
+			if p, ok := e.globals[g]; ok {
+				return p
+			}
+		}
+	}
 	p := new(Value)
 	*p = zero(g.Type().(*types.Pointer).Elem())
 	e.globals[g] = p
 	return p
+}
+
+// runInit executes a package initialiser. Initialisers of its imports are not run from here (they
+// run lazily when one of their variables is touched).
+func (e *Engine) runInit(p *ssa.Package) {
+	f := p.Func("init")
+	if f == nil || f.Blocks == nil {
+		return
+	}
+	e.lazyInit++
+	defer func() { e.lazyInit-- }()
+	e.callBody(f, nil, nil)
 }
 
 func (e *Engine) constVal(c *ssa.Const) Value {
@@ -344,9 +475,14 @@ func (e *Engine) call(fn *ssa.Function, args []Value, env []Value) Value {
 		}
 		return in(e, args)
 	}
-	if fn.Name() == "init" && fn.Pkg != e.pkg && !(fn.Pkg != nil && initAllow[fn.Pkg.Pkg.Path()]) {
-		return nil
+	if fn.Name() == "init" && fn.Pkg != e.pkg && fn.Synthetic != "" {
+		return nil // initialisers of other packages run lazily, see global()
 	}
+	return e.callBody(fn, args, env)
+}
+
+func (e *Engine) callBody(fn *ssa.Function, args []Value, env []Value) Value {
+	name := fn.String()
 	e.stack = append(e.stack, name)
 	if fn.Blocks == nil {
 		panic(unsupported("no body: " + name))
@@ -368,7 +504,9 @@ func (e *Engine) call(fn *ssa.Function, args []Value, env []Value) Value {
 		fr.locals[fv] = env[i]
 	}
 	fr.block = fn.Blocks[0]
+	callSite := e.cur
 	res := e.runFrame(fr)
+	e.cur = callSite
 	e.depth--
 	e.stack = e.stack[:len(e.stack)-1]
 	return res
@@ -752,6 +890,9 @@ func (e *Engine) store(addr Value, v Value) {
 		if len(e.readonly) > 0 {
 			e.checkWrite(a)
 		}
+		if e.copyCells[a] {
+			panic(unsupported("store through a symbolic index"))
+		}
 		e.noteStore(a)
 		storeInto(a, v)
 	default:
@@ -895,8 +1036,8 @@ func (e *Engine) eval(fr *Frame, ins ssa.Value) Value {
 	case *ssa.Slice:
 		return e.sliceOp(fr, ins)
 	case *ssa.MakeSlice:
-		n := e.concInt(e.get(fr, ins.Len))
-		c := e.concInt(e.get(fr, ins.Cap))
+		n := e.allocLen(e.get(fr, ins.Len), ins.Len.Type())
+		c := e.allocLen(e.get(fr, ins.Cap), ins.Cap.Type())
 		if n < 0 || c < n {
 			e.goPanicStr("makeslice: len out of range")
 		}
@@ -1034,16 +1175,47 @@ func (e *Engine) symIndexCell(arr []Value, idx Int, t types.Type) *Value {
 			big = c
 		}
 	}
-	for i := range arr {
-		if class[i] == big {
+	// one fork per class of equal cells (not per index): the class condition is a disjunction of
+	// index ranges
+	for c := range reps {
+		if c == big {
 			continue
 		}
-		if e.Branch(mkEq(idx.T, bvConst(idx.W, uint64(i)))) {
-			return &arr[i]
+		cond := tFalse
+		for i := 0; i < len(arr); {
+			if class[i] != c {
+				i++
+				continue
+			}
+			k := i
+			for k+1 < len(arr) && class[k+1] == c {
+				k++
+			}
+			if k == i {
+				cond = mkOr(cond, mkEq(idx.T, bvConst(idx.W, uint64(i))))
+			} else {
+				cond = mkOr(cond, mkAnd(mk("bvuge", 0, idx.T, bvConst(idx.W, uint64(i))), mk("bvule", 0, idx.T, bvConst(idx.W, uint64(k)))))
+			}
+			i = k + 1
+		}
+		if e.Branch(cond) {
+			if count[c] == 1 {
+				return &arr[reps[c]]
+			}
+			return e.copyCell(arr[reps[c]])
 		}
 	}
+	return e.copyCell(arr[reps[big]])
+}
+
+// copyCell: a read-only stand-in for "one of several equal cells selected by a symbolic index".
+func (e *Engine) copyCell(v Value) *Value {
 	cell := new(Value)
-	*cell = copyVal(arr[reps[big]])
+	*cell = copyVal(v)
+	if e.copyCells == nil {
+		e.copyCells = map[*Value]bool{}
+	}
+	e.copyCells[cell] = true
 	return cell
 }
 
